@@ -18,6 +18,14 @@ OBLIGATIONS = [
     Ob(name='C03.O4.data_free_refused', harness=H, entry='h_data_free_refused', defines=D, mode='legacy', unwind=2, cover=False, checks=CK, functions=('_call_rcu_data_free',),
        desc='_call_rcu_data_free refuses NULL and the default helper'),
 ]
+SEL = 'C03/select.c'
+for e, fns, d in (
+    ('h_get_cpu', ('get_cpu_call_rcu_data',), 'get_cpu_call_rcu_data for EVERY int cpu and table length 0..3: NULL without table / out of range, else that entry; no access outside the table'),
+    ('h_set_cpu', ('set_cpu_call_rcu_data',), 'set_cpu_call_rcu_data for every int cpu: -EINVAL / -ENOMEM / -EEXIST / stores exactly that entry; mutex released on every path'),
+    ('h_get_call_rcu_data', ('get_call_rcu_data', 'get_default_call_rcu_data', 'call_rcu_data_init'), 'helper selection: thread helper > per-CPU helper of the current CPU (any sched_getcpu result) > default helper, created once with its thread if missing'),
+    ('h_call_rcu_public', ('call_rcu',), 'call_rcu(): selection + one enqueue on the selected helper inside one read-side critical section of the caller; nesting restored'),
+):
+    OBLIGATIONS.append(Ob(name='C03.O3.' + e[2:], harness=SEL, entry=e, defines=D, mode='legacy', replace=('get_possible_cpus_array_len',), unwind=4, min_covers=2, checks=CK, functions=fns, timeout=300, desc=d))
 META = {
     'level': 'other',
     'explanation': 'C03 quantifies over schedules of enqueuers, helper threads and grace periods. Contracts decide the per-function obligations: _call_rcu enqueues exactly once (FIFO, wake-up handshake); one helper iteration = splice all, one grace period, each spliced callback once in order with its own rcu_head, never a callback enqueued during that grace period; a freed helper hands its leftovers to the default helper once and in order. Batches and leftovers are bounded (<= 3); the unbounded queue contracts are C10.',
